@@ -19,6 +19,8 @@ func (w *world) opts(mode string, same bool) []tensor.FuncOpt {
 		o = append(o, tensor.WithReuse(w.ts[atoi(f[1])]))
 	case "incr":
 		o = append(o, tensor.WithIncr(w.ts[atoi(f[1])]))
+	case "ur": // ur.<reuse>: UseUnsafe together with WithReuse - the destination takes precedence
+		o = append(o, tensor.UseUnsafe(), tensor.WithReuse(w.ts[atoi(f[1])]))
 	case "both": // both.<reuse>.<incr>
 		o = append(o, tensor.WithReuse(w.ts[atoi(f[1])]), tensor.WithIncr(w.ts[atoi(f[2])]))
 	}
@@ -404,8 +406,29 @@ func init() {
 	// apply:<op>:<a>:<mode>  Dense.Apply with a Go function of the element type computing <op>
 	progOps["apply"] = func(w *world, f []string) string {
 		a := w.ts[atoi(f[2])]
-		return w.ret(a.Apply(applyFn(w.dt, f[1]), w.opts(f[3], false)...))
+		fn := applyFn(w.dt, f[1])
+		if w.alt && !strings.HasPrefix(f[3], "incr") {
+			// (with WithIncr the two forms differ inside the known zone F81: the model transcribes the plain form)
+			fn = errForm(fn) // the other form of the function argument: func(T) (T, error)
+		}
+		return w.ret(a.Apply(fn, w.opts(f[3], false)...))
 	}
+}
+
+func errForm(fn interface{}) interface{} {
+	switch f := fn.(type) {
+	case func(float64) float64:
+		return func(x float64) (float64, error) { return f(x), nil }
+	case func(float32) float32:
+		return func(x float32) (float32, error) { return f(x), nil }
+	case func(int) int:
+		return func(x int) (int, error) { return f(x), nil }
+	case func(int64) int64:
+		return func(x int64) (int64, error) { return f(x), nil }
+	case func(int32) int32:
+		return func(x int32) (int32, error) { return f(x), nil }
+	}
+	return fn
 }
 
 // applyFn: a user function of the dtype for Dense.Apply (neg | square | abs)
